@@ -265,6 +265,7 @@ def run(prog, chk):
     R.exclusive_guard(prog, chk, "C06.b", ("String",), floor=4)
     formatted_length(prog, chk, fs)
     join_alternation(prog, chk, "C06.i")
+    detach_precondition(prog, chk, "C06.j", fs)
 
 
 def formatted_length(prog, chk, fs):
@@ -391,3 +392,52 @@ def join_alternation(prog, chk, rid):
                 "tokens may be empty): join([\"\", \"a\"], '.') must be \".a\"" % why, evals=len(sat))
     else:
         chk.ok(rid, f, "appends alternate token / separator on every path", where, "%d program points, exit states %s" % (len(sat), sorted(set(s for s, _ in ex))), evals=len(sat))
+
+
+def detach_precondition(prog, chk, rid, fs):
+    """detach(copyLength, minCapacity) allocates room for minCapacity characters and copies copyLength of them: every call must
+    establish copyLength <= minCapacity (else the copy overruns the new block)"""
+    from .. import fin
+    chk.rule(rid, "VSA (symbolic): at every call of detach(copyLength, minCapacity) the second argument is shown to be at least the first: "
+                  "equal expressions, `copyLength + unsigned`, copyLength 0, the max idiom, or a dominating comparison", floor=10)
+    for f in fs:
+        defs = q.local_defs(f)
+        for c in [i for i in q.calls(f) if f.nodes[i].get("callee") == "String::detach" and len(q.call_args(f, i)) == 2]:
+            a, b = q.call_args(f, c)
+            A, B = q.no_casts(q.xr(f, a, defs)), q.no_casts(q.xr(f, b, defs))
+            why = None
+            if q.is_zero(f, a) or A == "0":
+                why = "nothing is copied"
+            elif A == B:
+                why = "both arguments are `%s`" % A[:40]
+            elif B.startswith("(" + A + " + ") or re.fullmatch(r"\((.+) \+ %s\)" % re.escape(A), B):
+                why = "minCapacity is copyLength plus an unsigned amount"
+            else:
+                m = re.fullmatch(r"\(\((.+) < (.+)\) \? (.+) : (.+)\)", B) or re.fullmatch(r"\((.+) < (.+) \? (.+) : (.+)\)", B)
+                if m and ((m.group(2) == A and m.group(3) == A and m.group(4) == m.group(1))):
+                    why = "minCapacity is max(size, copyLength)"
+                m2 = re.fullmatch(r"\(\((.+) > (.+)\) \? (.+) : (.+)\)", B) or re.fullmatch(r"\((.+) > (.+) \? (.+) : (.+)\)", B)
+                if why is None and m2 and ((m2.group(1) == m2.group(3) and m2.group(2) == A and m2.group(4) == A) or (m2.group(1) == A and m2.group(3) == A and m2.group(4) == m2.group(2))):
+                    why = "minCapacity is max(size, copyLength)"
+                if why is None:
+                    rel = fin.relations(f, f.node_pos(c))
+                    if (A, "<=", B) in rel or (A, "<", B) in rel or (A, "==", B) in rel:
+                        why = "a dominating comparison establishes copyLength <= minCapacity"
+            if why is None:
+                # minCapacity assigned on several branches: each definition that reaches the call is judged where it is made
+                nb_ = f.nodes[f.strip(b)]
+                if nb_["k"] == "DeclRefExpr" and nb_["ref"].get("dk") == "local":
+                    dl_ = [d_ for d_ in defs.get(nb_["ref"]["id"], []) if d_[2] is not None and d_[0] != "addr" and f.node_pos(d_[1]) is not None]
+                    oks_ = []
+                    for d_ in dl_:
+                        Bi = q.no_casts(q.xr(f, d_[2], defs))
+                        rel_i = fin.relations(f, f.node_pos(d_[1]))
+                        oks_.append(Bi == A or (A, "<=", Bi) in rel_i or (A, "<", Bi) in rel_i or Bi.startswith("(" + A + " + "))
+                    if len(dl_) > 1 and all(oks_):
+                        why = "every definition of `%s` is at least copyLength where it is made" % nb_["ref"]["n"]
+            if why:
+                chk.ok(rid, f, "detach(%s, %s)" % (A[:30], B[:40]), f.where(c), why, evals=2)
+            else:
+                chk.bad(rid, f, "detach-copies-more-than-it-allocates", f.where(c),
+                        "detach(%s, %s): nothing establishes %s <= %s here; detach allocates minCapacity characters and copies copyLength of them "
+                        "(for a literal, attached or shared String capacity() is 0, so a test against capacity() says nothing about the length)" % (A[:40], B[:50], A[:30], B[:30]))
